@@ -39,6 +39,12 @@ def strategy(draw, tier="quick"):
             "sel": draw(st.sampled_from(["none", "none", "equal", "different", "permuted", "different-unsorted"]))}
     if case["precentered"] and draw(st.booleans()):
         case["recentre"] = True
+    if case["precentered"] and draw(st.booleans()):
+        case["slice_after"] = draw(st.sampled_from(["rev", "tail", "perm"]))
+    if draw(st.integers(0, 19)) == 0:
+        # a large system: tens of thousands of atoms spread over tens of nm (sum of squares beyond 1e6 nm^2)
+        case.update(n=draw(st.sampled_from([5000, 20000, 60000])), scale=draw(st.sampled_from([5.0, 10.0, 20.0])), nf=2,
+                    kind=draw(st.sampled_from(["random", "near", "smallrot"])), frame=draw(st.integers(0, 1)))
     return case
 
 
@@ -206,14 +212,20 @@ def run_case(case):
                 tgt.center_coordinates()
                 pre_x = 8 * case["scale"]
                 labels.append("edited-in-place-and-centred-again")
+        order = list(range(nf))
+        if pre and case.get("slice_after"):
+            # frames taken out of the centred trajectory (a copy, with whatever it caches per frame) before the precentered call
+            order = {"rev": order[::-1], "tail": order[1:], "perm": [int(v) for v in rng.permutation(nf)]}[case["slice_after"]]
+            tgt = tgt[order]
+            labels.append("sliced-after-centring:" + case["slice_after"])
         got = md.rmsd(tgt, ref, f, parallel=case["parallel"], precentered=pre, **kw)
-        if got.shape != (nf,):
+        if got.shape != (len(order),):
             viol.append(("rmsd/shape", str(got.shape)))
         else:
-            for k in range(nf):
+            for j, k in enumerate(order):
                 r, _R, S = refs[k]
-                if not np.isfinite(got[k]) or abs(got[k] - r) > _tol(r, S, xmax if not pre else pre_x, c):
-                    viol.append(("rmsd/value", "frame %d: md.rmsd=%.7g, Kabsch minimum %.7g (tol %.3g, N=%d)" % (k, got[k], r, _tol(r, S, xmax, c), n)))
+                if not np.isfinite(got[j]) or abs(got[j] - r) > _tol(r, S, xmax if not pre else pre_x, c):
+                    viol.append(("rmsd/value", "frame %d: md.rmsd=%.7g, Kabsch minimum %.7g (tol %.3g, N=%d)" % (k, got[j], r, _tol(r, S, xmax, c), n)))
                     break
         # parallel flag: bit-identical
         a = md.rmsd(fresh(), fresh(), f, parallel=True, **kw)
